@@ -11,6 +11,7 @@ import (
 	"verif/engine/explore"
 	"verif/engine/vctx"
 	"verif/engine/vpipe"
+	"verif/engine/vtime"
 	"verif/engine/vs"
 	"verif/fw"
 	"verif/refws/frame"
@@ -333,5 +334,82 @@ func init() {
 	fw.Register(fw.Part{Prop: "C06", Name: "s.close",
 		Units:  func(tier string) []fw.Unit { return scenarioUnits(c06Scenarios(tier)) },
 		Replay: replayFn(c06Scenarios),
+	})
+}
+
+// A slow close handshake that is still within the documented bounds: the peer's
+// receive window is closed for 3.5 s (the Close frame takes that long to get out:
+// less than the 5 s allowed for writing it) and the peer echoes 2.5 s after it has
+// the frame (less than the 5 s allowed for waiting). Close returns nil.
+func c06SlowSetup(k connCfg, writeDelay, echoDelay time.Duration) func(c *fw.Ctx, name string) explore.Setup {
+	return func(c *fw.Ctx, name string) explore.Setup {
+		return func(w *vs.World) func(bool) {
+			p := vpipe.New()
+			p.Window = 1
+			var err error
+			done := false
+			var t0, t1 int64
+			w.GoHarness("main", true, func() {
+				conn := mkConn(p, k)
+				w.GoHarness("peer", false, func() {
+					vtime.Sleep(writeDelay)
+					p.SetWindow(0)
+					var cf frame.Frame
+					if !p.WaitOut("close-frame", func(out []byte) bool {
+						f, ok := firstClose(out)
+						cf = f
+						return ok
+					}) {
+						return
+					}
+					vtime.Sleep(echoDelay)
+					p.Send(peerFrame(k, frame.Frame{Fin: true, Opcode: frame.OpClose, Payload: cf.Payload}))
+				})
+				t0 = w.Now
+				err = conn.Close(websocket.StatusNormalClosure, "done")
+				t1 = w.Now
+				done = true
+			})
+			return func(complete bool) {
+				if !complete {
+					return
+				}
+				role := k.String()
+				locus := fmt.Sprintf("write-%v-echo-%v/%s", writeDelay, echoDelay, role)
+				if w.Panic != "" {
+					violate(c, w, name, "C06/panic/"+locus, w.Panic)
+					return
+				}
+				c.OutcomeStr(fmt.Sprintf("%s|done=%v|err=%v|dt=%dms", name, done, err != nil, (t1-t0)/1e6))
+				if !done {
+					violate(c, w, name, "C06/close-never-returns/"+locus, fmt.Sprintf("stuck %v", stuckTasks(w)))
+					return
+				}
+				if err != nil {
+					violate(c, w, name, "C06/close-error-although-echoed/"+locus, fmt.Sprintf("the Close frame took %v to get out and the peer echoed it %v later, both within the documented 5 s; Close returned %v after %v", writeDelay, echoDelay, err, time.Duration(t1-t0)))
+				}
+			}
+		}
+	}
+}
+
+func c06SlowScenarios(tier string) []scenario {
+	var scs []scenario
+	cfg := explore.Config{P: 1, T: 1, Horizon: 60e9}
+	if tier == "thorough" {
+		cfg = explore.Config{P: 2, T: 2, Horizon: 60e9}
+	}
+	for _, k := range []connCfg{{Client: false}, {Client: true}} {
+		for _, d := range [][2]time.Duration{{3500 * time.Millisecond, 2500 * time.Millisecond}, {4900 * time.Millisecond, 4900 * time.Millisecond}, {0, 4900 * time.Millisecond}} {
+			scs = append(scs, scenario{Name: fmt.Sprintf("slow/%v+%v/%s", d[0], d[1], k.String()), Cfg: cfg, Setup: c06SlowSetup(k, d[0], d[1])})
+		}
+	}
+	return scs
+}
+
+func init() {
+	fw.Register(fw.Part{Prop: "C06", Name: "s.slow",
+		Units:  func(tier string) []fw.Unit { return scenarioUnits(c06SlowScenarios(tier)) },
+		Replay: replayFn(c06SlowScenarios),
 	})
 }
